@@ -113,18 +113,23 @@ Definition C06_codegen_correct_statement : Prop :=
 From SCC Require Import Model.ParMoves Model.LinCheck Sem.X86Wf Proof.X86Exec Proof.SubstGraph Proof.X86Subst
      Proof.X86SimRel Proof.X86SimStmt Proof.X86SimPrint Proof.X86SimProg Proof.X86SimTop Proof.X86SimExample.
 Open Scope list_scope.
-(* THE STATE RELATION  `rel c e s sp`  (Proof/X86SimRel.v) between a configuration of the linear AxCut
+(* THE STATE RELATION  `rel CL c e s sp`  (Proof/X86SimRel.v) between a configuration of the linear AxCut
    machine - the typing context c the generator threads and the environment e, a list of (name, value)
    by position - and an ISA state s:  rsp = sp with the whole spill area inside the stack region,
-   sp = 8 (mod 16), room below sp for the pushes around a print call; e and c name the same ids in the
-   same order, pairwise distinct; the value at position i is an integer z and the SECOND temporary of
-   position i (register 5+2i, or spill slot 2i-10 from position 6 on) holds z.
-   `frame_eq s s' sp`: heap, high-water mark, output and every stack word outside the spill area are
-   unchanged; `above_eq`: heap, high-water mark and every stack word at or above sp are unchanged.
+   sp = 8 (mod 16), room below sp for the pushes around a print call, rbp (deferred-free list) defined;
+   e and c name the same ids in the same order, pairwise distinct; position i is represented (`vrep`) as
+     integer z (binding ext i64):  the SECOND temporary of position i (register 5+2i, or spill slot 2i-10
+                                   from position 6 on) holds z;
+     closure without captured variables (binding cns T): first temporary = null block pointer, second
+                                   temporary = a code address a with `CL a T clauses`.
+   CL, what a closure's code pointer points to, is a parameter of the statement-level theorems (they never
+   look inside; the program-level theorem of the integer fragment takes CL := False).
+   `frame_eq s s' sp`: heap, output and every stack word outside the spill area are unchanged;
+   `above_eq`: heap and every stack word at or above sp are unchanged.
    First consequence: the machine's operand lookup and the generator's `variable_temporary` meet. *)
 Theorem C06_sim_rel_reads :
-  forall (c : ctx) (e : env) (s : xstate) (sp : Z) (a : ident) (x : Z),
-    rel c e s sp -> lookup_int e a = Some x ->
+  forall (CL : Z -> ident -> list clause -> Prop) (c : ctx) (e : env) (s : xstate) (sp : Z) (a : ident) (x : Z),
+    rel CL c e s sp -> lookup_int e a = Some x ->
     exists i b t, nth_error c i = Some b /\ idn (bvar b) = idn a /\ tpos x86_backend Snd i = Ok t /\ lget s sp t = Some x.
 Proof. exact rel_lookup. Qed.
 Print Assumptions C06_sim_rel_reads.
@@ -135,34 +140,34 @@ Print Assumptions C06_sim_rel_reads.
    are whatever `code_statement` computed (`variable_temporary … = Ok t`), and the conclusion relates the
    state after the emitted code to the machine's next environment. *)
 Theorem C06_sim_literal :
-  forall (im : image) (c : ctx) (e : env) (s : xstate) (sp : Z) (n : Z) (v : ident) (tv : xtemp),
-    rel c e s sp -> NoDup (ids (c ++ [mkb v Ext I64])) ->
+  forall (im : image) (CL : Z -> ident -> list clause -> Prop) (c : ctx) (e : env) (s : xstate) (sp : Z) (n : Z) (v : ident) (tv : xtemp),
+    rel CL c e s sp -> NoDup (ids (c ++ [mkb v Ext I64])) ->
     variable_temporary x86_backend Snd (c ++ [mkb v Ext I64]) (idn v) = Ok tv ->
     exists s', exec_straight im (x_load_immediate tv n) s = Some s' /\
-               rel (c ++ [mkb v Ext I64]) (e ++ [(v, VInt n)]) s' sp /\ frame_eq s s' sp.
+               rel CL (c ++ [mkb v Ext I64]) (e ++ [(v, VInt n)]) s' sp /\ frame_eq s s' sp.
 Proof. exact sim_literal. Qed.
 Print Assumptions C06_sim_literal.
 
 (* all five operators; the result is the AxCut value (wrap-around for + - *, truncation for / %) *)
 Theorem C06_sim_op :
-  forall (im : image) (c : ctx) (e : env) (s : xstate) (sp : Z) (a : ident) (o : binop) (b v : ident) (x y z : Z)
-         (tv ta tb : xtemp),
-    rel c e s sp -> NoDup (ids (c ++ [mkb v Ext I64])) ->
+  forall (im : image) (CL : Z -> ident -> list clause -> Prop) (c : ctx) (e : env) (s : xstate) (sp : Z) (a : ident) (o : binop)
+         (b v : ident) (x y z : Z) (tv ta tb : xtemp),
+    rel CL c e s sp -> NoDup (ids (c ++ [mkb v Ext I64])) ->
     lookup_int e a = Some x -> lookup_int e b = Some y -> eval_op o x y = OpVal z ->
     variable_temporary x86_backend Snd (c ++ [mkb v Ext I64]) (idn v) = Ok tv ->
     variable_temporary x86_backend Snd (c ++ [mkb v Ext I64]) (idn a) = Ok ta ->
     variable_temporary x86_backend Snd (c ++ [mkb v Ext I64]) (idn b) = Ok tb ->
     exists s', exec_straight im (x_arith o tv ta tb) s = Some s' /\
-               rel (c ++ [mkb v Ext I64]) (e ++ [(v, VInt z)]) s' sp /\ frame_eq s s' sp.
+               rel CL (c ++ [mkb v Ext I64]) (e ++ [(v, VInt z)]) s' sp /\ frame_eq s s' sp.
 Proof. exact sim_op. Qed.
 Print Assumptions C06_sim_op.
 
 (* the undefined cases (divisor 0, min_int / -1, for Div and Rem): the emitted code runs into the
    faulting idiv, which the ISA model reports with the same reason, output unchanged *)
 Theorem C06_sim_op_undefined :
-  forall (im : image) (c : ctx) (e : env) (s : xstate) (sp : Z) (a : ident) (o : binop) (b v : ident) (x y : Z) (w : string)
-         (tv ta tb : xtemp),
-    rel c e s sp -> NoDup (ids (c ++ [mkb v Ext I64])) ->
+  forall (im : image) (CL : Z -> ident -> list clause -> Prop) (c : ctx) (e : env) (s : xstate) (sp : Z) (a : ident) (o : binop)
+         (b v : ident) (x y : Z) (w : string) (tv ta tb : xtemp),
+    rel CL c e s sp -> NoDup (ids (c ++ [mkb v Ext I64])) ->
     lookup_int e a = Some x -> lookup_int e b = Some y -> eval_op o x y = OpUndef w ->
     variable_temporary x86_backend Snd (c ++ [mkb v Ext I64]) (idn v) = Ok tv ->
     variable_temporary x86_backend Snd (c ++ [mkb v Ext I64]) (idn a) = Ok ta ->
@@ -180,9 +185,10 @@ Print Assumptions C06_sim_op_undefined_observed.
    the first instruction of the branch the machine takes - the else branch right after the jump, the then
    branch right after the label - in a related state *)
 Theorem C06_sim_ifc :
-  forall (im : image) (c : ctx) (e : env) (s : xstate) (sp : Z) (so : ifsort) (a : ident) (b : option ident) (x y : Z)
+  forall (im : image) (CL : Z -> ident -> list clause -> Prop) (c : ctx) (e : env) (s : xstate) (sp : Z) (so : ifsort)
+         (a : ident) (b : option ident) (x y : Z)
          (types : list tydecl) (thenc elsec : stmt) (lc : N) (code : list xcode) (lc' : N) (pc : positive),
-    rel c e s sp -> lookup_int e a = Some x ->
+    rel CL c e s sp -> lookup_int e a = Some x ->
     match b with Some b => lookup_int e b | None => Some 0 end = Some y ->
     code_statement x86_backend types (IfC so a b thenc elsec) c lc = Ok (code, lc') ->
     code_at im pc code -> labels_at_nh im pc code ->
@@ -192,51 +198,82 @@ Theorem C06_sim_ifc :
       code_statement x86_backend types thenc c lc2 = Ok (c3, lc') /\
       exec_to im pc s (if eval_cmp so x y then padd pc (List.length c1 + List.length c2 + 1)
                        else padd pc (List.length c1)) s' /\
-      rel c e s' sp /\ frame_eq s s' sp.
+      rel CL c e s' sp /\ frame_eq s s' sp.
 Proof. exact sim_ifc. Qed.
 Print Assumptions C06_sim_ifc.
 
-(* Substitute (integer fragment): no reference count is touched, and the parallel moves leave the
-   machine's rearranged environment in the new context's temporaries (uses C11_x86_parallel_moves_simultaneous
-   and C11_substitute_graph_edges) *)
+(* Substitute, ANY mix of integer and closure variables, any rearrangement (drop, duplicate, permute): the
+   reference-count code (one erase / share per closure variable dropped / duplicated, each skipped because
+   the block pointer of a closure without captured variables is null; uses C11_x86_erase_meaning /
+   C11_x86_share_meaning through x86_emit_rc_ok) followed by the parallel moves
+   (C11_x86_parallel_moves_simultaneous, C11_substitute_graph_edges) leaves the machine's rearranged
+   environment in the temporaries of the new context.  `has …` is the condition lin_check imposes. *)
 Theorem C06_sim_substitute :
-  forall (im : image) (c : ctx) (e : env) (s : xstate) (sp : Z) (re : list (binding * ident)) (vs : list value) (e' : env)
-         (c1 : list xcode) (lc lc1 : N) (c2 : list xcode),
-    rel c e s sp -> ctx_int c = true -> NoDup (new_ids re) ->
+  forall (im : image) (CL : Z -> ident -> list clause -> Prop) (c : ctx) (e : env) (s : xstate) (sp : Z)
+         (re : list (binding * ident)) (vs : list value) (e' : env)
+         (c1 : list xcode) (lc lc1 : N) (c2 : list xcode) (pc : positive),
+    rel CL c e s sp -> NoDup (new_ids re) ->
+    (forall q, In q re -> has c (snd q) (bchi (fst q)) (bty (fst q)) = true) ->
     lookups e (map snd re) = Some vs -> bind (map (fun r => bvar (fst r)) re) vs = Some e' ->
     code_weakening_contraction x86_backend (transpose re c) c lc = Ok (c1, lc1) ->
     code_exchange x86_backend (transpose re c) c (map fst re) = Ok c2 ->
-    c1 = [] /\ lc1 = lc /\
-    exists s', exec_straight im c2 s = Some s' /\ rel (map fst re) e' s' sp /\ frame_eq s s' sp.
+    code_at im pc (c1 ++ c2) -> labels_at_nh im pc (c1 ++ c2) ->
+    exists s', exec_to im pc s (padd pc (List.length (c1 ++ c2))) s' /\ rel CL (map fst re) e' s' sp /\ frame_eq s s' sp.
 Proof. exact sim_substitute. Qed.
 Print Assumptions C06_sim_substitute.
+(* in an integer context no reference-count code is emitted at all *)
+Theorem C06_sim_substitute_int_no_rc :
+  forall (c : ctx) (re : list (binding * ident)) (lc : N),
+    ctx_int c = true -> NoDup (ids c) ->
+    code_weakening_contraction x86_backend (transpose re c) c lc = Ok ([], lc).
+Proof. exact cwc_ctx_int. Qed.
+Print Assumptions C06_sim_substitute_int_no_rc.
 
 (* PrintI64 on the external-call model (alignment check at the call, havoc of rax rcx rdx rsi rdi r8-r11,
-   of the flags and of the stack below rsp): the printed value is the variable's, every live variable of
-   EVERY integer context survives (backup registers for <= 4 variables, mixed at 5, pushes from 6 on,
-   spilled variables untouched), rsp is restored *)
+   of the flags and of the stack below rsp): the printed value is the variable's, every live temporary of
+   EVERY context survives - whatever registers `caller_save_registers_info` lists (one per integer, two per
+   closure among the first four positions), however many of them fit into free callee-saved registers and
+   however many are pushed, with or without the alignment padding; spilled variables and r12-r15 are
+   untouched - and rsp is restored *)
 Theorem C06_sim_print :
-  forall (im : image) (c : ctx) (e : env) (s : xstate) (sp : Z) (nl : bool) (v : ident) (z : Z) (tv : xtemp),
-    rel c e s sp -> ctx_int c = true -> lookup_int e v = Some z ->
+  forall (im : image) (CL : Z -> ident -> list clause -> Prop) (c : ctx) (e : env) (s : xstate) (sp : Z) (nl : bool)
+         (v : ident) (z : Z) (tv : xtemp),
+    rel CL c e s sp -> lookup_int e v = Some z ->
     variable_temporary x86_backend Snd c (idn v) = Ok tv ->
     exists s', exec_straight im (x_print nl tv c) s = Some s' /\
-               rel c e s' sp /\ out s' = (nl, z) :: out s /\ above_eq s s' sp.
+               rel CL c e s' sp /\ out s' = (nl, z) :: out s /\ above_eq s s' sp.
 Proof. exact sim_print. Qed.
 Print Assumptions C06_sim_print.
+(* its core, for ANY list of distinct caller-saved registers and any first backup register >= 12 *)
+Theorem C06_sim_print_save_call_restore :
+  forall (im : image) (fb : N) (regs : list N) (s : xstate) (sp : Z) (nl : bool) (z : Z) (rs : N),
+    (12 <= fb)%N -> Forall (fun r => (4 <= r <= 11)%N) regs -> NoDup regs ->
+    frame_ok s sp -> sp mod 16 = 8 -> STACK_LIMIT + 128 <= sp ->
+    rget s rs = Some z -> rs <> 0%N -> (rs < fb)%N ->
+    exists s', exec_straight im (save_caller_save_registers fb regs ++ [MOV (arg 0) rs] ++ [CALL (print_name nl)]
+                                 ++ restore_caller_save_registers fb regs) s = Some s' /\
+      rget s' 0%N = Some sp /\
+      (forall r, In r regs -> rget s' r = rget s r) /\
+      (forall r, r <> 0%N -> existsb (N.eqb r) caller_saved = false -> (r < fb)%N -> rget s' r = rget s r) /\
+      (forall a, sp <= a -> kget s' a = kget s a) /\
+      out s' = (nl, z) :: out s /\ heap s' = heap s.
+Proof. exact print_core. Qed.
+Print Assumptions C06_sim_print_save_call_restore.
 
-(* Call: the jump changes no state; the callee's context relabels the same positions *)
+(* Call: the jump changes no state; the callee's context (same kinds and types position by position:
+   lin_check's sig_match) relabels the same positions *)
 Theorem C06_sim_call :
-  forall (c : ctx) (e : env) (st : xstate) (sp : Z) (c' : ctx) (e' : env),
-    rel c e st sp -> NoDup (ids c') -> List.length c' = List.length c ->
-    bind (vars c') (map snd e) = Some e' -> rel c' e' st sp.
+  forall (CL : Z -> ident -> list clause -> Prop) (c : ctx) (e : env) (st : xstate) (sp : Z) (c' : ctx) (e' : env),
+    rel CL c e st sp -> NoDup (ids c') -> sig_match c c' = true ->
+    bind (vars c') (map snd e) = Some e' -> rel CL c' e' st sp.
 Proof. exact bind_rel. Qed.
 Print Assumptions C06_sim_call.
 
 (* Exit: the result reaches rax; from `cleanup`, with the frame the prologue built above the spill area
    (`outer_ok`), the run ends with OExit of that value: rsp and rbx rbp r12-r15 have their entry values *)
 Theorem C06_sim_exit :
-  forall (im : image) (c : ctx) (e : env) (s : xstate) (sp : Z) (v : ident) (z : Z) (tv : xtemp),
-    rel c e s sp -> lookup_int e v = Some z -> variable_temporary x86_backend Snd c (idn v) = Ok tv ->
+  forall (im : image) (CL : Z -> ident -> list clause -> Prop) (c : ctx) (e : env) (s : xstate) (sp : Z) (v : ident) (z : Z) (tv : xtemp),
+    rel CL c e s sp -> lookup_int e v = Some z -> variable_temporary x86_backend Snd c (idn v) = Ok tv ->
     exists s', exec_straight im (x_mov (XR RETURN1) tv) s = Some s' /\ rget s' RETURN1 = Some z /\
                frame_ok s' sp /\ frame_eq s s' sp.
 Proof. exact sim_exit_mov. Qed.
@@ -254,7 +291,7 @@ Theorem C06_sim_prologue :
   forall (im : image) (args : list Z) (su : list xcode),
     setup (List.length args) = Ok su ->
     exists s, exec_straight im su (init_state args) = Some s /\
-      frame_ok s sp0 /\ outer_ok s sp0 /\ out s = [] /\
+      frame_ok s sp0 /\ outer_ok s sp0 /\ out s = [] /\ (exists f, rget s FREE = Some f) /\
       (forall i, (i < List.length args)%nat -> rget s (5 + 2 * N.of_nat i)%N = Some (nth i args 0)).
 Proof. exact prologue_ok. Qed.
 Print Assumptions C06_sim_prologue.
@@ -265,7 +302,7 @@ Print Assumptions C06_sim_prologue.
    print trace and result, or the undefined operation - whenever the machine's run ends at all (a
    linearly well-typed statement of the fragment never gets stuck: progress is part of the proof) *)
 Theorem C06_sim_exec :
-  forall (im : image) (p : prog) (sp : Z),
+  forall (im : image) (p : prog) (sp : Z) (CL : Z -> ident -> list clause -> Prop),
     (forall d, In d (pdefs p) ->
        exists pcd lcd cd lcd', find_label (labels im) (show_ident (dname d) +++ "_") = Some pcd /\
          PM.find pcd (code im) = Some (LAB (show_ident (dname d) +++ "_")) /\
@@ -279,7 +316,7 @@ Theorem C06_sim_exec :
       stmt_int s = true -> ctx_int c = true -> lin_check (sigs_of p) c s = true ->
       code_statement x86_backend (ptypes p) s c lc = Ok (code, lc') ->
       code_at im pc code -> labels_at_nh im pc code ->
-      rel c e st sp -> outer_ok st sp -> out st = ot ->
+      rel CL c e st sp -> outer_ok st sp -> out st = ot ->
       snd (exec_linear fuel p e s ot) <> OOutOfFuel -> finishes im pc st (exec_linear fuel p e s ot).
 Proof. exact sim_exec. Qed.
 Print Assumptions C06_sim_exec.
